@@ -699,3 +699,31 @@ Lemma premises_inhabited :
   exists r d', load_dets apply_any sample_defs (CMany [[115]; [116]]) = Ok r /\ dom_dets r = true /\
                dets_plain r = Ok d'.
 Proof. eexists _, _. split; [vm_compute; reflexivity|]. split; vm_compute; reflexivity. Qed.
+
+(* ---------- the merge of two items written under the same key ---------- *)
+Lemma str_eqb_app_ne k s : s <> [] -> str_eqb k (k ++ s) = false.
+Proof.
+  intros Hs. induction k as [|c k IH]; simpl.
+  - destruct s; [congruence | reflexivity].
+  - rewrite N.eqb_refl. exact IH.
+Qed.
+
+(* two single values under one key without |all and |neq: one item key|all with both values
+   (AND-linked, which is what two items of one mapping mean) *)
+Lemma merge_two_singles k a b :
+  infixb s_neq k = false -> infixb s_all k = false ->
+  merge_all [] [(k, MOne a); (k, MOne b)] = Ok [(k ++ s_all, MMany [a; b])].
+Proof.
+  intros Hn Ha.
+  cbn [merge_all merge_step md_get md_set obind].
+  rewrite str_eqb_refl. rewrite Hn, Ha. cbn [is_empty_list orb unwrap1 is_many aslist vals_of app].
+  cbn [md_get].
+  match goal with |- context [str_eqb k ?x] =>
+    assert (E : str_eqb k x = false) by (apply str_eqb_app_ne; discriminate) end.
+  rewrite E. cbn [md_del obind]. rewrite str_eqb_refl. reflexivity.
+Qed.
+
+(* negated items, and an empty value list (null check), are never merged: serialisation fails *)
+Lemma merge_neq_refused k v1 v2 md :
+  infixb s_neq k = true -> md_get k md = Some v1 -> merge_step md (k, v2) = SigmaErr E_Value.
+Proof. intros Hn Hg. unfold merge_step. rewrite Hg, Hn. reflexivity. Qed.
